@@ -401,8 +401,15 @@ def _key_shape(repo, m: Func, k, keyf: Func) -> str:
         rets = [n for n in walk_shallow(f.node) if isinstance(n, ast.Return)]
         if len(rets) == 1:
             body, param = rets[0].value, (f.params() or [None])[0]
+            # locals of the key function that merely name parts of the key are followed
+            from ..util import resolve_local as _rl
+
+            if isinstance(body, ast.Tuple):
+                body = ast.Tuple(elts=[_rl(f, e) for e in body.elts], ctx=ast.Load())
+            else:
+                body = _rl(f, body)
     if body is None or param is None:
-        return f"unrecognised key '{norm(k)}'"
+        raise AnalysisError(f"{m.short}: sort key '{norm(k)[:50]}' is neither the natural-key function, a lambda nor a local function with one return: form not understood")
 
     def is_nat(e):
         return isinstance(e, ast.Call) and is_keyf_ref(e.func) and len(e.args) == 1 and is_name(e.args[0], param)
